@@ -50,6 +50,9 @@ func c06Gen(r *Rng, tier string, i int) Sx {
 		}
 		if strings.TrimSpace(intercept) != "" {
 			opts = append(opts, L(A("intercept"), S(intercept)))
+		} else if r.Bool() { // a blank argument switches nothing on
+			opts = append(opts, L(A("intercept"), S(r.Pick([]string{" ", "", "\t"}))))
+			intercept = ""
 		}
 	}
 	var qs []Sx
